@@ -698,8 +698,9 @@ def check_property(root, pid, tier, seed):
         ev["coverage"]["traces_validated_against_impl"] = sum(1 for h in kani_report if h["status"] == "ok")
         ev["coverage"]["evaluations"] = max(1, obligations + len(kani_report))
         ev["coverage"]["distinct_nontrivial"] = max(2, len(kani_report) + len(fn_under_contract))
-    os.makedirs(os.path.join(root, "evidence"), exist_ok=True)
-    evp = os.path.join(root, "evidence", pid + ".json")
+    evdir = os.environ.get("VERIF_EVIDENCE_DIR", os.path.join(root, "evidence"))   # the self-test redirects its evidence
+    os.makedirs(evdir, exist_ok=True)
+    evp = os.path.join(evdir, pid + ".json")
     for k, f in known:
         print("KNOWN-FINDING: property=%s %s" % (pid, k["what"]))
     rc = 0
